@@ -109,7 +109,8 @@ inductive After (s0 : State) : State → Prop
       (match op with | .start _ | .finish _ _ => false | _ => true) = true → After s0 (step s op).1
 
 /-- **unhealthy_until_invalid_rejected** — let `F` be the set registered by `FinishStateSync` (the
-processing blocks that failed re-verification).  After any further calls, the health check's
+processing blocks that failed re-verification).  After any further normal-operation calls (every engine call and accepter step except
+another `StartStateSync`/`FinishStateSync`, see `After`), the health check's
 unresolved set is exactly `F` minus the ids announced to the pre-rejected subscribers since (i.e.
 the blocks of `F` the engine has rejected): it only shrinks, the check reports an error exactly
 while some block of `F` has not been rejected, and reports healthy once all have been. -/
@@ -155,8 +156,7 @@ theorem reject_unverified_resolves (s : State) (h : Nat) (hv : (s.obj h).verifie
 `h` whose parent lookup yields `p`: the block ends verified (with the output of the inner
 `VerifyBlock` on the parent's output) exactly when the parent is verified and the block is valid;
 otherwise the object is untouched and its id joins the unresolved set.
-Partial: the lifting to the whole sorted loop ("verified iff all processing ancestors and itself
-are valid") is not proved; the oracle (`reverify-mismatch`) evaluates it on every run. -/
+One iteration only; the whole height-sorted loop is `processing_reverified_loop` below. -/
 theorem processing_reverified_partial (s : State) (bad : List Nat) (h : Nat) (p : Obj)
     (hp : s.view (s.getBlock (s.obj h).blk.parent) = some p) :
     (p.verified = true ∧ (s.obj h).blk.invalid = false →
